@@ -524,6 +524,10 @@ var invalid = []string{"\x80", "\xbf", "\xc0\x80", "\xc1\xbf", "\xc2", "\xe0\x80
 	"\xed\xbf\xbf", "\xf0\x80\x80\x80", "\xf0\x8f\xbf\xbf", "\xf4\x90\x80\x80", "\xf5\x80\x80\x80", "\xff", "\xfe",
 	"\xe2\x80", "\xe2", "\xf0\x9f\x98", "\xe2\x28\xa1", "\xc3\x28", "\xf0\x28\x8c\xbc", "\xe2\x80\xa8\x80"}
 
+// the TEXT of escape sequences as data (a JSON document or a path stored in a text column): whatever is done
+// to the rendered bytes afterwards must not take these for escapes
+var lookalike = []string{`\u003c`, `\u003e`, `\u0026`, `\u2028`, `\u0000`, `\n`, `\"`, `\\`, `\/`, `\u00`, `\u003`, `&lt;`, `&amp;`, `%5C`, `\\u003c`, `{"t":"\u003cb\u003e"}`}
+
 func pick(rng *rand.Rand, l []string) string { return l[rng.Intn(len(l))] }
 
 func genString(rng *rand.Rand, bad bool) string {
@@ -536,7 +540,9 @@ func genString(rng *rand.Rand, bad bool) string {
 	var sb strings.Builder
 	n := rng.Intn(14)
 	for i := 0; i < n; i++ {
-		switch r := rng.Intn(12); {
+		switch r := rng.Intn(13); {
+		case r == 12:
+			sb.WriteString(pick(rng, lookalike))
 		case r < 5:
 			sb.WriteByte(byte(0x20 + rng.Intn(0x5f)))
 		case r < 8:
@@ -878,7 +884,7 @@ func init() {
 		for i := 0; i < n; i++ {
 			cases = append(cases, genCase(rng, rng.Intn(20) < 3, &bank))
 		}
-		rep.Rule = "corpus first, then seeded sequences of 1-8 messages through ONE real Marshaller each (package-level pools shared by the whole run): 85% with valid UTF-8 strings covering every escape class of go-json (quote, backslash, \\n \\r \\t, other C0, < > &, U+2028/9 and near misses, 2/3/4-byte characters, DEL, 8-byte-chunk boundaries), 15% malformed share with invalid UTF-8 bytes in values/types/names/tables. Shapes alternate INSERT / UPDATE with full old tuple / old key only / none / TOAST markers / DELETE / BEGIN / COMMIT / TRUNCATE / odd operations; wide then narrow; same names with different presence; about one message in six of the valid share is a change already rendered in an earlier sequence; one INSERT/UPDATE in three is followed directly by a DELETE over (a prefix of) the same column names. LSNs incl. 0, 2^32-1, 2^32, 2^64-1; ServerTime incl. 0, +-1, leap days, the int64-nanosecond overflow edge, min/max int64. Every case is run a second time in reverse order for the history-independence monitor. Non-trivial: a sequence with >= 2 marshalled messages of different column sets or old/new presence; distinct by content."
+		rep.Rule = "corpus first, then seeded sequences of 1-8 messages through ONE real Marshaller each (package-level pools shared by the whole run): 85% with valid UTF-8 strings covering every escape class of go-json (quote, backslash, \\n \\r \\t, other C0, < > &, the TEXT of escape sequences as data (backslash-u-003c, backslash-n, &lt;), U+2028/9 and near misses, 2/3/4-byte characters, DEL, 8-byte-chunk boundaries), 15% malformed share with invalid UTF-8 bytes in values/types/names/tables. Shapes alternate INSERT / UPDATE with full old tuple / old key only / none / TOAST markers / DELETE / BEGIN / COMMIT / TRUNCATE / odd operations; wide then narrow; same names with different presence; about one message in six of the valid share is a change already rendered in an earlier sequence; one INSERT/UPDATE in three is followed directly by a DELETE over (a prefix of) the same column names. LSNs incl. 0, 2^32-1, 2^32, 2^64-1; ServerTime incl. 0, +-1, leap days, the int64-nanosecond overflow edge, min/max int64. Every case is run a second time in reverse order for the history-independence monitor. Non-trivial: a sequence with >= 2 marshalled messages of different column sets or old/new presence; distinct by content."
 		var sb strings.Builder
 		sb.WriteString("From Bifrost.model Require Import Base Json Marshal.\nOpen Scope string_scope.\nDefinition cases : list mcase := [\n")
 		seen := map[string]bool{}
